@@ -19,6 +19,7 @@ DRIVER_TAIL = """
          Some(())
       }}
       fn run(&mut self) {{ {run} }}
+      fn run_here(&mut self) {{ {run} }}
       fn run_timeout(&mut self, _k: usize) -> Option<bool> {{ None }}
       fn dump(&self) -> String {{ vec![{dumps}].join(" | ") }}
       fn iters(&self) -> String {{ "iters".into() }}
